@@ -255,6 +255,18 @@ impl FsCommand {
                 Err(e) => return refuse(e.kind(), e.to_string()),
             }
         }
+        // The file or the missing directories are going to be created in that directory.
+        #[cfg(unix)]
+        if let Some(d) = dir {
+            use nix::unistd::{access, AccessFlags};
+            if let Err(e) = access(&d.to_path_buf(), AccessFlags::W_OK | AccessFlags::X_OK) {
+                let e = io::Error::from(e);
+                return refuse(
+                    e.kind(),
+                    format!("Cannot create files in {}: {}", d.display(), e),
+                );
+            }
+        }
         Ok(())
     }
 
